@@ -259,3 +259,39 @@ PROPS["C13"] = dict(
         H("c13_witness_must_fail", kind="witness", tier="thorough", timeout=600, unwindset=U13),
     ],
 )
+
+U20 = {r"spec_words": 132, r"parser.*build_index": 132, r"toggle_spec": 66, r"pdep_u64": 66, r"select_in_word": 66,
+       r"spec.*rank1|spec.*select1": 4, r"same_as_spec": 4}
+
+PROPS["C20"] = dict(
+    module="c20",
+    bounds=("every text of exactly 5, 7, 63, 64, 65, 70 or 130 arbitrary bytes (one or two full 64-byte chunks + carry + tail) and every pairwise-distinct "
+            "(delimiter, quote, record separator) byte triple; marker and newline words compared word for word with a byte-at-a-time definition for the "
+            "scalar, SSE2, AVX2 and BMI2 engines and the dispatcher; toggle64 kernels for every (carry, 64-bit quote mask)"),
+    outside="texts longer than 130 bytes (more chunks repeat the same carry step); aarch64 engines",
+    assumptions=["_pdep_u64 replaced by models.rs; dispatcher probes solver-chosen"],
+    harnesses=[
+        H("c20_scalar_70", timeout=900, unwindset=U20, bounds="scalar builder, 70 bytes"),
+        H("c20_scalar_5", timeout=300, unwindset=U20, bounds="scalar builder, 5 bytes"),
+        H("c20_sse2_70", timeout=1800, unwindset=U20, bounds="SSE2, 70 bytes"),
+        H("c20_avx2_70", timeout=1800, unwindset=U20, bounds="AVX2, 70 bytes"),
+        H("c20_bmi2_70", timeout=1800, unwindset=U20, bounds="BMI2, 70 bytes"),
+        H("c20_sse2_64", timeout=1800, unwindset=U20, tier="thorough", bounds="SSE2, 64 bytes"),
+        H("c20_avx2_64", timeout=1800, unwindset=U20, tier="thorough", bounds="AVX2, 64 bytes"),
+        H("c20_bmi2_64", timeout=1800, unwindset=U20, tier="thorough", bounds="BMI2, 64 bytes"),
+        H("c20_sse2_63", timeout=1800, unwindset=U20, tier="thorough", bounds="SSE2, 63 bytes"),
+        H("c20_avx2_65", timeout=1800, unwindset=U20, tier="thorough", bounds="AVX2, 65 bytes"),
+        H("c20_bmi2_65", timeout=1800, unwindset=U20, tier="thorough", bounds="BMI2, 65 bytes"),
+        H("c20_sse2_130", timeout=2700, unwindset=U20, tier="thorough", bounds="SSE2, 130 bytes"),
+        H("c20_avx2_130", timeout=2700, unwindset=U20, tier="thorough", bounds="AVX2, 130 bytes"),
+        H("c20_bmi2_130", timeout=2700, unwindset=U20, tier="thorough", bounds="BMI2, 130 bytes"),
+        H("c20_avx2_7", timeout=900, unwindset=U20, bounds="AVX2, 7 bytes (tail only)"),
+        H("c20_dispatch_70", timeout=2700, unwindset=U20, tier="thorough", bounds="dispatcher, 70 bytes, probes symbolic", replay="trace"),
+        H("c20_empty", timeout=300, unwindset=U20, bounds="empty text, all engines"),
+        H("c20_toggle64_scalar", timeout=600, unwindset=U20, bounds="all (carry, mask)"),
+        H("c20_toggle64_bmi2", timeout=600, unwindset=U20, bounds="all (carry, mask), PDEP model"),
+        H("c20_prefix_xor", timeout=300, bounds="all x:u64"),
+        H("c20_index_rank_select_70", timeout=1800, unwindset=U20, bounds="rank/select of the built index vs bit counting, 70 bytes"),
+        H("c20_witness_must_fail", kind="witness", tier="thorough", timeout=300),
+    ],
+)
